@@ -177,24 +177,6 @@ theorem getSub_split (hr : RegsOK s R R') {sb : Mod} (h : sb ∈ s.subs) : R'.ge
   rw [this, find?_key_of_nodup Mod.name hr.sub_names_nodup h]
   exact byId_split_of_sub hr h
 
-/-- Every include statement of the owner resolves to a submodule of the split, and every
-submodule is the target of one (`RegsOK.owner_includes`, pointwise). -/
-theorem owner_include_resolves (hr : RegsOK s R R') {i : Stmt} (hi : i ∈ s.owner.includes) :
-    ∃ sb ∈ s.subs, R'.findModule true i = some sb := by
-  have h : R'.findModule true i ∈ s.subs.map some := by
-    rw [← hr.owner_includes]
-    exact List.mem_map_of_mem (f := fun i => R'.findModule true i) hi
-  obtain ⟨sb, hsb, e⟩ := List.mem_map.mp h
-  exact ⟨sb, hsb, e.symm⟩
-
-theorem sub_included (hr : RegsOK s R R') {sb : Mod} (h : sb ∈ s.subs) :
-    ∃ i ∈ s.owner.includes, R'.findModule true i = some sb := by
-  have h' : some sb ∈ (s.owner.stmt.all "include").map fun i => R'.findModule true i := by
-    rw [hr.owner_includes]
-    exact List.mem_map_of_mem h
-  obtain ⟨i, hi, e⟩ := List.mem_map.mp h'
-  exact ⟨i, hi, e⟩
-
 theorem owner_imports (ht : TextOK s) : s.owner.imports = s.m.imports :=
   ht.kept "import" (by simp [keptKws])
 
@@ -204,9 +186,6 @@ theorem owner_fullName (ht : TextOK s) : s.owner.fullName = s.m.fullName := by
 
 theorem sub_imports (ht : TextOK s) {sb : Mod} (h : sb ∈ s.subs) : sb.imports = s.m.imports :=
   ht.sub_imports sb h
-
-theorem sub_includes (hr : RegsOK s R R') {sb : Mod} (h : sb ∈ s.subs) : sb.includes = [] :=
-  hr.sub_no_include sb h
 
 theorem includes_nil (hr : RegsOK s R R') {x : Mod} (hx : x ∈ R.mods) : x.includes = [] :=
   (hr.R_modules_only x hx).2.2
@@ -449,121 +428,6 @@ theorem simL (hr : RegsOK s R R') {n : Nat} (IH : Sim s R R' n) :
         exact this
       · exact hc' hmw hm1 sb hsb
 
-/-- **The simulation.** -/
-theorem sim (ht : TextOK s) (hr : RegsOK s R R') : ∀ n, Sim s R R' n := by
-  intro n
-  induction n with
-  | zero =>
-    intro v v' x w g _ hw
-    rw [includeWalk_zero] at hw
-    cases hw
-  | succ n IH =>
-    intro v v' x w g hx hw hI hg
-    obtain ⟨g0, rfl⟩ : ∃ g0, g = g0 + 1 := ⟨g - 1, by omega⟩
-    rw [includeWalk_succ] at hw
-    rw [includeWalk_succ, repl_seq hr]
-    by_cases hc : x.seq ∈ v
-    · rw [if_pos (by simpa using hc)] at hw
-      cases hw
-      rw [if_pos (by simpa using (hI x hx).mpr hc)]
-      exact ⟨v', rfl, hI, fun h1 h2 => absurd h1 h2⟩
-    · have hc' : x.seq ∉ v' := fun h => hc ((hI x hx).mp h)
-      rw [if_neg (by simpa using hc), includes_nil hr hx, List.foldl_nil] at hw
-      rw [if_neg (by simpa using hc')]
-      have hlt := unvisited_cons_lt R' v' (repl s x) (repl_mem hr hx) (by rw [repl_seq hr]; simpa using hc')
-      rw [repl_seq hr] at hlt
-      by_cases hxm : x.seq = s.m.seq
-      · have hxeq := eq_m_of_seq hr hx hxm
-        subst hxeq
-        rw [repl_m, owner_imports ht]
-        have hidem := foldl_walkStep_idem hw
-        -- one walk of `m`'s import statements in `R'`: the first does what `R` does, a later one nothing
-        have stepL : ∀ cur g1, (Ia R (s.m.seq :: v) cur ∨ Ia R w cur) → unvisited R' cur + 1 ≤ g1 →
-            ∃ cur', s.m.imports.foldl (walkStep R' g1 false) (cur, none) = (cur', none) ∧ Ia R w cur' := by
-          intro cur g1 hP hg1
-          rcases hP with hP | hP
-          · obtain ⟨c, h1, h2, _⟩ := simL hr IH _ _ _ _ g1 hw hP hg1
-            exact ⟨c, h1, h2⟩
-          · obtain ⟨c, h1, h2, _⟩ := simL hr IH _ _ _ _ g1 hidem hP hg1
-            exact ⟨c, h1, h2⟩
-        -- the walk of the owner's include statements
-        have incl : ∀ (incs : List Stmt) (sbs : List Mod) (cur : List Nat),
-            incs.map (R'.findModule true) = sbs.map some → (∀ sb ∈ sbs, sb ∈ s.subs) →
-            (Ia R (s.m.seq :: v) cur ∨ Ia R w cur) → (∀ y, y ∈ s.m.seq :: v' → y ∈ cur) →
-            ∃ cur', incs.foldl (walkStep R' g0 true) (cur, none) = (cur', none) ∧
-              (Ia R (s.m.seq :: v) cur' ∨ Ia R w cur') ∧ (∀ y, y ∈ cur → y ∈ cur') ∧
-              (∀ sb ∈ sbs, sb.seq ∈ cur') := by
-          intro incs
-          induction incs with
-          | nil =>
-            intro sbs cur hmap _ hP hsub
-            cases sbs with
-            | nil => exact ⟨cur, rfl, hP, fun y hy => hy, fun sb h => by cases h⟩
-            | cons _ _ => simp at hmap
-          | cons i incs ih =>
-            intro sbs cur hmap hsbs hP hsub
-            cases sbs with
-            | nil => simp at hmap
-            | cons sb sbs =>
-              simp only [List.map_cons, List.cons.injEq] at hmap
-              obtain ⟨hfi, hmap'⟩ := hmap
-              have hsb : sb ∈ s.subs := hsbs sb (List.mem_cons_self ..)
-              have hcur : unvisited R' cur ≤ unvisited R' (s.m.seq :: v') := unvisited_mono R' _ _ hsub
-              have hwalk : ∃ cur1, includeWalk R' g0 cur sb = (cur1, none) ∧
-                  (Ia R (s.m.seq :: v) cur1 ∨ Ia R w cur1) ∧ (∀ y, y ∈ cur → y ∈ cur1) ∧ sb.seq ∈ cur1 := by
-                by_cases hin : sb.seq ∈ cur
-                · obtain ⟨g1, rfl⟩ : ∃ g1, g0 = g1 + 1 := ⟨g0 - 1, by omega⟩
-                  exact ⟨cur, includeWalk_of_mem R' g1 hin, hP, fun y hy => hy, hin⟩
-                · have hlt2 := unvisited_cons_lt R' cur sb (sub_mem hr hsb) (by simpa using hin)
-                  obtain ⟨g1, rfl⟩ : ∃ g1, g0 = g1 + 1 := ⟨g0 - 1, by omega⟩
-                  have hP2 : Ia R (s.m.seq :: v) (sb.seq :: cur) ∨ Ia R w (sb.seq :: cur) :=
-                    hP.imp (Ia_cons_sub hr · hsb) (Ia_cons_sub hr · hsb)
-                  obtain ⟨cur1, h1, h2⟩ := stepL (sb.seq :: cur) g1 hP2 (by omega)
-                  refine ⟨cur1, ?_, Or.inr h2, ?_, ?_⟩
-                  · rw [includeWalk_succ, if_neg (by simpa using hin), sub_includes hr hsb, List.foldl_nil,
-                      sub_imports ht hsb]
-                    exact h1
-                  · intro y hy
-                    have := foldl_walkStep_mono R' g1 false s.m.imports (sb.seq :: cur, none) y
-                      (List.mem_cons_of_mem _ hy)
-                    rw [h1] at this
-                    exact this
-                  · have := foldl_walkStep_mono R' g1 false s.m.imports (sb.seq :: cur, none) sb.seq
-                      (List.mem_cons_self ..)
-                    rw [h1] at this
-                    exact this
-              obtain ⟨cur1, hw1, hP1, hm1, hsb1⟩ := hwalk
-              obtain ⟨cur', hf', hP', hm', hall'⟩ := ih sbs cur1 hmap'
-                (fun b hb => hsbs b (List.mem_cons_of_mem _ hb)) hP1 (fun y hy => hm1 y (hsub y hy))
-              refine ⟨cur', ?_, hP', fun y hy => hm' y (hm1 y hy), ?_⟩
-              · rw [foldl_walkStep_cons_of incs hfi hw1]
-                exact hf'
-              · intro b hb
-                rcases List.mem_cons.mp hb with rfl | hb'
-                · exact hm' _ hsb1
-                · exact hall' b hb'
-        obtain ⟨cur', hf', hP', hm', hall'⟩ := incl s.owner.includes s.subs (s.m.seq :: v')
-          hr.owner_includes (fun _ h => h) (Or.inl (Ia_cons_both hI _)) (fun y hy => hy)
-        have hg' : unvisited R' cur' + 1 ≤ g0 := by
-          have := unvisited_mono R' _ _ hm'
-          omega
-        obtain ⟨w', h1, h2⟩ := stepL cur' g0 hP' hg'
-        refine ⟨w', ?_, h2, ?_⟩
-        · rw [hf']
-          exact h1
-        · intro _ _ sb hsb
-          have := foldl_walkStep_mono R' g0 false s.m.imports (cur', none) sb.seq (hall' sb hsb)
-          rw [h1] at this
-          exact this
-      · rw [repl_of_ne hxm, includes_nil hr hx, List.foldl_nil]
-        obtain ⟨w', hw', hI', hcc⟩ := simL hr IH x.imports (x.seq :: v) (x.seq :: v') w g0 hw
-          (Ia_cons_both hI _) (by omega)
-        refine ⟨w', hw', hI', ?_⟩
-        intro hmw hmv
-        apply hcc hmw
-        simp only [List.mem_cons, not_or]
-        exact ⟨fun e => hxm e.symm, hmv⟩
-
 end Sim
 
 /-! ### Part 4: `linkAll` -/
@@ -639,69 +503,6 @@ theorem foldl_linkStep_roots (reg : Registry) (l : List Mod) (acc : List Nat × 
 
 section Top
 variable {s : Split} {R R' : Registry}
-
-/-- The fold of `linkAll` over the same starts (up to `repl`) in the two registries. -/
-theorem top_sim (ht : TextOK s) (hr : RegsOK s R R') :
-    ∀ (l : List Mod) (acc acc' : List Nat × List Err), (∀ x ∈ l, x ∈ R.mods) → acc'.2 = [] →
-      Ia R acc.1 acc'.1 → (s.m.seq ∈ acc.1 → ∀ sb ∈ s.subs, sb.seq ∈ acc'.1) →
-      (l.foldl (linkStep R) acc).2 = [] →
-      ((l.map (repl s)).foldl (linkStep R') acc').2 = [] ∧
-      Ia R (l.foldl (linkStep R) acc).1 ((l.map (repl s)).foldl (linkStep R') acc').1 ∧
-      (s.m.seq ∈ (l.foldl (linkStep R) acc).1 →
-        ∀ sb ∈ s.subs, sb.seq ∈ ((l.map (repl s)).foldl (linkStep R') acc').1) := by
-  intro l
-  induction l with
-  | nil => intro acc acc' _ he hI hb _; exact ⟨he, hI, hb⟩
-  | cons x l ih =>
-    intro acc acc' hl he hI hb h
-    rw [List.foldl_cons] at h
-    rw [List.foldl_cons, List.map_cons, List.foldl_cons]
-    obtain ⟨_, hw⟩ := linkStep_errs_nil (foldl_linkStep_errs_nil h)
-    have hx := hl x (List.mem_cons_self ..)
-    obtain ⟨w', hw', hI', hc⟩ := sim ht hr _ acc.1 acc'.1 x _ (R'.mods.length + 1) hx hw hI
-      (by have := unvisited_le R' acc'.1; omega)
-    have hstep : linkStep R' acc' (repl s x) = (w', []) := by
-      simp only [linkStep, hw', he]
-    rw [hstep]
-    apply ih _ _ (fun y hy => hl y (List.mem_cons_of_mem _ hy)) rfl hI' _ h
-    intro hm sb hsb
-    by_cases hm0 : s.m.seq ∈ acc.1
-    · have := includeWalk_visited_mono R' (R'.mods.length + 1) acc'.1 (repl s x) sb.seq (hb hm0 sb hsb)
-      rw [hw'] at this
-      exact this
-    · exact hc hm hm0 sb hsb
-
-/-- **The linking stage of a split registry.**  When the unsplit registry links without error, so
-does the split one; the linked sets agree on the modules of `R`, and `m` and all submodules are
-linked. -/
-theorem linkAll_split (s : Split) (R R' : Registry) (ht : TextOK s) (hr : RegsOK s R R')
-    (h : (linkAll R).2 = []) :
-    (linkAll R').2 = [] ∧ LinkOK s R (linkAll R).1 (linkAll R').1 := by
-  have e1 := linkAll_eq R
-  have e2 : linkAll R' =
-      ((sortBy (fun (a b : Mod) => a.fullName < b.fullName) R.distinctModules).map (repl s)).foldl
-        (linkStep R') ([], []) := by
-    rw [linkAll_eq R', distinctModules_split hr]
-    congr 1
-    apply sortBy_map
-    intro x hx y hy
-    rw [repl_fullName ht hr (distinctModules_mem R x hx), repl_fullName ht hr (distinctModules_mem R y hy)]
-  rw [e1] at h
-  rw [e1, e2]
-  have hroots : ∀ x ∈ sortBy (fun (a b : Mod) => a.fullName < b.fullName) R.distinctModules, x ∈ R.mods :=
-    fun x hx => distinctModules_mem R x ((mem_sortBy _ _ _).mp hx)
-  obtain ⟨h1, h2, h3⟩ := top_sim ht hr _ ([], []) ([], []) hroots rfl
-    (fun _ _ => Iff.rfl) (fun h => by cases h) h
-  have hm : s.m.seq ∈ ((sortBy (fun (a b : Mod) => a.fullName < b.fullName) R.distinctModules).foldl
-      (linkStep R) ([], [])).1 :=
-    foldl_linkStep_roots R _ _ s.m ((mem_sortBy _ _ _).mpr (m_distinct hr))
-  refine ⟨h1, ⟨?_, ?_, ?_⟩⟩
-  · intro x hx
-    rw [Bool.eq_iff_iff]
-    simpa using h2 x hx
-  · simpa using hm
-  · intro sb hsb
-    simpa using h3 hm sb hsb
 
 end Top
 
